@@ -47,9 +47,10 @@ def enum_decl(ed: EnumDef, derive_debug=False, doc=False, vis='pub'):
         if ed.exhaustive == 'conditional':
             # live variants of conditional enums alternate between plain and #[cfg(all())]
             if not live:
-                pre += "#[cfg(any())] "
+                # compiled-out variants: a single false cfg, or two stacked cfgs of which only the second is false
+                pre += "#[cfg(any())] " if (d + ed.n) % 2 == 0 else "#[cfg(all())] #[cfg(any())] "
             elif d % 2 == 1:
-                pre += "#[cfg(all())] "
+                pre += "#[cfg(all())] " if d % 4 == 1 else "/** doc before cfg */ #[cfg(all())] #[cfg(not(any()))] "
         lit = fmt_disc(d)
         if live:
             vs.append(f"    {pre}V{d:x} = {lit},")
@@ -275,6 +276,7 @@ def default_lit(s: Struct):
 
 
 def struct_decl(s: Struct, derives='', doc=False):
+    doc = doc or getattr(s, "doc", False)
     lines = []
     cn = None
     if s.default is not None and s.default_form == 'const':
